@@ -50,20 +50,19 @@ def run(R):
     if spb is not None:
         prep(spb)
         split_pad_rules(R, spb, "C15.split")
-    cg = R.body("C15.chunk", CG + "::{closure#0}")
-    if cg is not None:
-        prep(cg)
-
-        def src_addr(b):
-            return Taint(b).closure(PL(b, 1))  # the requested `addr` parameter
-
-        def src_chunk(b):
-            ta = Taint(b, through="all")
-            des = call_results(["ant_protocol::storage::header::try_deserialize_record"])(b)
-            return ta.closure(des)
-        R.gate("C15.chunk", cg, RetSink("Ok"),
-               [[CmpGuard(src_addr, src_chunk, "Eq", "fetched chunk's address == requested address", close=False)]],
-               descr="chunk_get returns Ok(chunk) only when the chunk's own address equals the requested one")
+    chunk_get_rule(R, "C15")
+    # ... and multi-chunk data is assembled only from chunks that went through it (rule shared with C14)
+    from props.C14 import fetched_chunks_rule
+    fetched_chunks_rule(R, "C15")
+    # ... and the network layer hands a record straight back only when a single version was seen (otherwise the split resolution,
+    # checked below, decides) — rule of C05 evaluated here because "highest-counter version among those received" rests on it
+    from props.C05 import ACC, SRACT
+    from props.C10 import _ConstCmp
+    accb = R.body("C15.single", ACC)
+    if accb is not None:
+        one = _ConstCmp(F, lambda b: Taint(b).closure({blk["term"]["d"][0] for blk in b.blocks if blk["term"]["k"] == "call" and (blk["term"]["ncallee"] or "").endswith("HashMap::len")}),
+                        lambda v: v == 1, ("Eq",), "result_map.len() == 1")
+        R.gate("C15.single", accb, CallSink(SRACT), [[one]], descr="accumulate: a record is returned directly only when a single version was seen")
     gv = R.body("C15.vault", GV + "::{closure#0}")
     if gv is not None:
         prep(gv)
@@ -246,3 +245,23 @@ def _upvar_reads(body, name):
             if p and any(p[:len(q)] == q for q in places) and len(s["d"]) == 1:
                 out.add(s["d"][0])
     return out
+
+
+def chunk_get_rule(R, pfx="C15"):
+    """Client::chunk_get hands back a chunk only if the chunk's own (content-derived) address equals the requested one (shared with
+    C14: a data map and its chunks are fetched through this function)."""
+    F = R.F
+    cg = R.body(pfx + ".chunk", CG + "::{closure#0}")
+    if cg is not None:
+        prep(cg)
+
+        def src_addr(b):
+            return Taint(b).closure(PL(b, 1))  # the requested `addr` parameter
+
+        def src_chunk(b):
+            ta = Taint(b, through="all")
+            des = call_results(["ant_protocol::storage::header::try_deserialize_record"])(b)
+            return ta.closure(des)
+        R.gate(pfx + ".chunk", cg, RetSink("Ok"),
+               [[CmpGuard(src_addr, src_chunk, "Eq", "fetched chunk's address == requested address", close=False)]],
+               descr="chunk_get returns Ok(chunk) only when the chunk's own address equals the requested one")
